@@ -15,6 +15,8 @@ pub struct ModCase {
     pub weighted: bool,
     pub res: (i64, u32),
     pub comms: Vec<Vec<u32>>,
+    /// the implementation sees every weight divided by this power of two (modularity is invariant under the scaling)
+    pub wdiv: u64,
 }
 impl ModCase {
     pub fn request(&self) -> String {
@@ -23,6 +25,7 @@ impl ModCase {
             s.push_str(&format!(" {}", c.len()));
             for x in c { s.push_str(&format!(" {}", x)); }
         }
+        s.push_str(&format!(" {}", self.wdiv));
         s
     }
     pub fn parse(t: &mut Toks) -> ModCase {
@@ -30,12 +33,13 @@ impl ModCase {
         let weighted = t.next() != 0;
         let res = (t.next(), t.next() as u32);
         let comms = t.list(|t| t.list(|t| t.next() as u32));
-        ModCase { g, weighted, res, comms }
+        let wdiv = t.next() as u64;
+        ModCase { g, weighted, res, comms, wdiv }
     }
 }
 
 pub fn observe_mod(c: &ModCase) -> String {
-    let g = match c.g.build() {
+    let g = match c.g.build_scaled(c.wdiv.max(1)) {
         Ok(g) => g,
         Err(e) => return format!("i.build=E{}", err_code(&e.kind)),
     };
@@ -98,7 +102,7 @@ pub fn gen_mod(rng: &mut Rng, _profile: &str, size: usize) -> ModCase {
         }
     }
     let res = *rng.pick(&[(1i64, 1u32), (1, 1), (1, 2), (3, 2), (2, 1), (1, 4), (5, 4)]);
-    ModCase { g, weighted, res, comms }
+    ModCase { g, weighted, res, comms, wdiv: *rng.pick(&[1u64, 1, 2, 4, 1 << 60]) }
 }
 
 pub fn candidates_mod(c: &ModCase) -> Vec<String> {
@@ -312,7 +316,8 @@ pub fn gen_louv(rng: &mut Rng, profile: &str, size: usize) -> LouvCase {
         g = GraphCase { specs: crate::store::Specs { directed: true, multi: false, self_loops: false, dedupe: 1, missing: 0, slfalse: 1 }, nodes, edges };
         res = *rng.pick(&[(6i64, 5u32), (6, 5), (11, 10), (5, 4), (3, 2), (7, 4), (2, 1), (1, 1)]);
     }
-    LouvCase { g, weighted, res, seed: special_seed(rng, 1000), wden: 1 }
+    // dyadic scaling is exact in f64: the implementation's decisions are those of the unscaled run
+    LouvCase { g, weighted, res, seed: special_seed(rng, 1000), wden: *rng.pick(&[1u64, 1, 2, 4]) }
 }
 
 pub fn candidates_louv(c: &LouvCase) -> Vec<String> {
